@@ -342,6 +342,8 @@ def signature(trace, hw):
             return "ServerMain/main:no-exit-after-%s" % cname
         if e["exited"] and not ptemp:
             return "ServerMain/main:exit-without-signal/after-%s" % cname
+        if cmd.get("ev") in ("Connect", "ClientChunk") and all(not c["ogot"] for c in e["conns"]) and not e["exited"]:
+            return "ServerMain/main:connections-never-reach-the-orport"
         return "ServerMain/main:unexplained/after-%s" % cname
     if e.get("ev") != "obs":
         return "ServerMain/unexplained:command-%s" % e.get("ev")
@@ -369,6 +371,8 @@ def signature(trace, hw):
             return "ServerMain/handler:returned-orport-conn-open"
         if c["h"] == "done" and cmd.get("ev") == "ClientEnd" and was is not None and was["h"] == "wait" and c["ogot"] == was["ogot"] and c["oclosed"]:
             return "ServerMain/handler:did-not-wait-for-orport-after-client-end"
+        if c["h"] == "wait" and c["b"] == "done" and not c["closed"] and cmd.get("ev") == "ClientEnd":
+            return "ServerMain/conn:left-open-after-client-end"
         if c["h"] == "stats":
             return "ServerMain/handler:parked-at-stats-send"
         if c["h"] == "wait" and (c["a"], c["b"]) == ("done", "read"):
